@@ -25,6 +25,7 @@ DISPATCHING = {
     "numpy.dot", "numpy.matmul", "numpy.median", "numpy.var", "numpy.std", "numpy.nan_to_num", "numpy.zeros_like", "numpy.ones_like",
     "numpy.empty_like", "numpy.full_like",
 }
+NON_ARRAY_OPTIONS = {"casting", "order", "dtype", "subok", "signature", "sig", "axes", "axis", "keepdims", "extobj", "initial"}
 # callables that never look at element values
 METADATA_ONLY = {"numpy.iscomplexobj", "numpy.isrealobj", "numpy.shape", "numpy.ndim", "numpy.result_type", "numpy.can_cast",
                  "len", "isinstance", "issubclass", "type", "id", "hasattr", "getattr", "repr", "callable", "hex"}
@@ -86,7 +87,10 @@ class _Walk:
         self.mi = an.prog.modules[fi.module]
         self.env = {}
         for p in an.lazy_params.get(fi.qualname, []):
-            self.env[p] = "A"
+            if isinstance(p, tuple):
+                self.env[p[0]] = p[1]        # ("inputs", "C"): a container whose elements may be lazy arrays
+            else:
+                self.env[p] = "A"
         self.numpy_exprs = set()     # expression texts known to be NumPy-backed on the current path
         self.cur = None
 
@@ -390,6 +394,10 @@ class _Walk:
                 self.env[fn.value.id] = "C"
             if recv == "C" and name in ("items", "values", "keys", "copy"):
                 return "C"
+            if recv == "C" and name in ("get", "pop", "setdefault") and isinstance(fn.value, ast.Name):
+                if e.args and isinstance(e.args[0], ast.Constant) and e.args[0].value in NON_ARRAY_OPTIONS:
+                    return None          # ufunc options that are never arrays
+                return "A"               # an element of a container of possibly lazy values
             return "A" if (any_lazy and name not in ("like", "update", "format")) and recv is None and False else None
         if dotted:
             tgt = self.an.prog.lookup(dotted)
